@@ -656,7 +656,10 @@ class Node:
             child_class = child.__class__
 
             node = child_class(
-                source_node.data, parent=self, data_id=data_id, node_id=node_id
+                source_node.data,
+                parent=self,
+                data_id=source_node._data_id,
+                node_id=node_id,
             )
         else:
             node = factory(child, parent=self, data_id=data_id, node_id=node_id)
